@@ -610,7 +610,12 @@ func (g *gctx) genIterStmt(d int, indent string) *gnode {
 			fmt.Sprintf("yield t(i) * 2 if i < %d\n%s  recur(i + 1)\n", lim, indent),
 			fmt.Sprintf("recur(i + step)\n%s  yield i if i < %d\n", indent, lim),
 			fmt.Sprintf("seen := i\n%s  yield seen if i < %d\n%s  recur(i + 1, step: step)\n", indent, lim, indent),
-		}[g.r.Intn(4)]
+			// two yields: the first is the value, a later guarded one carries the stop condition
+			fmt.Sprintf("yield i\n%s  yield 0 if i < %d\n%s  recur(i + 1)\n", indent, lim, indent),
+			// the state advances before the guard, and the guard becomes true again after a stop
+			fmt.Sprintf("recur(i + 1)\n%s  yield i if i %% 3 != 2\n", indent),
+			fmt.Sprintf("recur(i + step)\n%s  yield t(i) if (i %% 4 != 1) && (i < %d)\n", indent, lim+6),
+		}[g.r.Intn(7)]
 		if g.r.Intn(3) == 0 {
 			g.use("iterator-positions")
 			return gn(indent, "gen := <{|i, step: 1|\n", indent, "  yield ", pos("yielded", gn("i")), " if i < ", pos("operand", gn(fmt.Sprint(lim))), "\n",
@@ -643,7 +648,11 @@ func (g *gctx) genIterStmt(d int, indent string) *gnode {
 		return gn(indent, name, " := ", src, ".new(", pos("argument", g.genI(1)), ")\n")
 	}
 	it := its[g.r.Intn(len(its))]
-	switch g.r.Intn(7) {
+	switch g.r.Intn(10) {
+	case 7, 8, 9:
+		// a next whose StopIterErr is absorbed, so that the history continues past a stop
+		g.use("iterator-next-recovered")
+		return gn(indent, "(-1)~.{|z| ", it.name, ".next}.p\n")
 	case 6:
 		g.use("iterator-chain")
 		return gn(indent, it.name, "@{|x| x}.p\n", indent, it.name, "@{|x| x}.p\n")
